@@ -181,7 +181,11 @@ func c06R2(c *Ctx) {
 	}
 	specs := []spec{{"AssignNIPv4", 1, "allocatingV4", false}, {"AssignNIPv6", 1, "allocatingV6", false},
 		{"CreateNetworkInterface", 0, "allocatingV4", true}, {"CreateNetworkInterface", 1, "allocatingV6", false}}
+	var useNode ast.Node
 	isPending := func(x ast.Expr, fam string) bool {
+		if useNode != nil {
+			x = derefLocal(p, fn, x, useNode)
+		}
 		call, ok := ast.Unparen(x).(*ast.CallExpr)
 		if !ok || Callee(info, call) != lenM {
 			return false
@@ -208,6 +212,7 @@ func c06R2(c *Ctx) {
 				continue
 			}
 			arg := cs.Call.Args[sp.arg]
+			useNode = cs.Call
 			// follow a single-definition local
 			if o := identObj(info, arg); o != nil {
 				ds := varDefs(fn, o)
@@ -216,6 +221,7 @@ func c06R2(c *Ctx) {
 					continue
 				}
 				arg = ds[0].rhs
+				useNode = ds[0].node // the pending length must be read in the critical section that computes the count
 			}
 			mc, ok := isBuiltinCall(info, arg, "min")
 			okBatch, okPending := false, false
@@ -631,4 +637,47 @@ func sliceText(fn *FuncInfo, obj types.Object, depth int) string {
 	}
 	rec(obj, depth)
 	return sb.String()
+}
+
+// derefLocal follows an identifier to the initialiser of its variable when the variable has
+// exactly one definition in fn and no lock release point (Unlock, Cond.Wait) can execute
+// between that definition and use: the value is what the initialiser would yield at use.
+func derefLocal(p *Prog, fn *FuncInfo, x ast.Expr, use ast.Node) ast.Expr {
+	info := fn.Info()
+	for depth := 0; depth < 3; depth++ {
+		o := identObj(info, x)
+		v, ok := o.(*types.Var)
+		if !ok || v.IsField() || v.Parent() == nil || v.Pkg() == nil || v.Parent() == v.Pkg().Scope() {
+			return x
+		}
+		ds := varDefs(fn, o)
+		if len(ds) != 1 || ds[0].rhs == nil {
+			return x
+		}
+		def := ds[0].node
+		la := NewLockAnalysis(p, fn)
+		body := innermostBody(fn, def)
+		if innermostBody(fn, use) != body {
+			return x
+		}
+		q := NewPathQuery(p, fn, body)
+		crossed := false
+		for _, b := range q.G.Blocks {
+			for _, n := range b.Nodes {
+				if !la.isReleasePoint(n) {
+					continue
+				}
+				rel := n
+				if q.Escapes(isExactly(def), isExactly(rel), isExactly(use), nil) != nil &&
+					q.Escapes(isExactly(rel), isExactly(use), isExactly(def), nil) != nil {
+					crossed = true
+				}
+			}
+		}
+		if crossed {
+			return x
+		}
+		x = ds[0].rhs
+	}
+	return x
 }
